@@ -467,6 +467,21 @@ Proof.
 Qed.
 
 (* which sets keep a layer writable *)
+Lemma storable_parts s :
+  storable s = true ->
+  i32 (l_top s) = true /\ i32 (l_left s) = true /\ i32 (l_bottom s) = true /\ i32 (l_right s) = true /\
+  match l_lspf s with Some p => u32 p | None => true end = true.
+Proof.
+  unfold storable. intro W.
+  apply andb_true_iff in W as [W W5]. apply andb_true_iff in W as [W W4].
+  apply andb_true_iff in W as [W W3]. apply andb_true_iff in W as [W1 W2]. repeat split; assumption.
+Qed.
+
+Lemma storable_build s :
+  i32 (l_top s) = true -> i32 (l_left s) = true -> i32 (l_bottom s) = true -> i32 (l_right s) = true ->
+  match l_lspf s with Some p => u32 p | None => true end = true -> storable s = true.
+Proof. unfold storable. intros -> -> -> -> ->. reflexivity. Qed.
+
 Lemma set_writable c a v s s' :
   set c a v s = AOk s' -> writable s = true ->
   match a, v with
@@ -477,29 +492,26 @@ Lemma set_writable c a v s s' :
   end = true ->
   writable s' = true.
 Proof.
-  intros H W R. unfold writable, storable, name_writable in *.
+  intros H W R. unfold writable in *. apply andb_true_iff in W as [W N].
+  destruct (storable_parts _ W) as (W1 & W2 & W3 & W4 & W5).
   destruct a, v; simpl in H; try discriminate.
-  - unfold set_name in H. destruct (Z.of_nat (length l) <? 256) eqn:L; inv H. simpl.
-    apply andb_true_iff in W as [W1 _]. rewrite W1. simpl.
+  - unfold set_name in H. destruct (Z.of_nat (length l) <? 256) eqn:L; inv H.
+    apply andb_true_iff. split; [exact W|]. unfold name_writable. simpl.
     destruct (macroman l) eqn:M.
     + rewrite M. simpl. apply Z.leb_le. apply Z.ltb_lt in L. lia.
     + reflexivity.
-  - inv H. exact W.
-  - unfold set_opacity in H. destruct ((0 <=? z) && (z <=? 255)); inv H. exact W.
+  - inv H. apply andb_true_iff. split; assumption.
+  - unfold set_opacity in H. destruct ((0 <=? z) && (z <=? 255)); inv H. apply andb_true_iff. split; assumption.
   - unfold set_blend in H. destruct (negb (valid_blend z)); [discriminate|].
-    destruct (is_group (l_kind s)); inv H; exact W.
+    destruct (is_group (l_kind s)); inv H; apply andb_true_iff; split; assumption.
   - unfold set_left in H. apply andb_true_iff in R as [R1 R2].
-    destruct (l_kind s); inv H; simpl; rewrite R1, R2;
-      repeat (apply andb_true_iff in W as [W ?]); repeat (apply andb_true_iff; split); try assumption; reflexivity.
+    destruct (l_kind s); inv H; (apply andb_true_iff; split; [apply storable_build; assumption|exact N]).
   - unfold set_top in H. apply andb_true_iff in R as [R1 R2].
-    destruct (l_kind s); inv H; simpl; rewrite R1, R2;
-      repeat (apply andb_true_iff in W as [W ?]); repeat (apply andb_true_iff; split); try assumption; reflexivity.
-  - unfold set_clip in H. destruct (fix_clip c || l_attached s); inv H; exact W.
+    destruct (l_kind s); inv H; (apply andb_true_iff; split; [apply storable_build; assumption|exact N]).
+  - unfold set_clip in H. destruct (fix_clip c || l_attached s); inv H; apply andb_true_iff; split; assumption.
   - unfold set_lock in H.
-    apply andb_true_iff in W as [W1 W2]. apply andb_true_iff in W1 as [W1 W3].
-    destruct (l_lspf s) eqn:E; inv H; simpl; rewrite W1, W2; simpl.
-    + rewrite R. reflexivity.
-    + destruct (fix_lock c); [rewrite R|]; reflexivity.
+    destruct (l_lspf s) eqn:E; inv H; (apply andb_true_iff; split; [apply storable_build; try assumption|exact N]); simpl.
+    destruct (fix_lock c); [exact R|reflexivity].
 Qed.
 
 (* save + open twice is save + open once *)
@@ -515,3 +527,24 @@ Proof. repeat split. Qed.
 Lemma new_pixel_ok att n t l w h dw dh p :
   divider_ok (new_pixel att n t l w h dw dh p) = true /\ divider_signed (new_pixel att n t l w h dw dh p) = true.
 Proof. split; reflexivity. Qed.
+
+(* ------------------------------------------------------------------ a whole history, then save + open *)
+Lemma history_persist (save_open : layer -> ares layer) :
+  (forall s, writable s = true -> save_open s = AOk (stored s)) ->
+  forall a l s,
+  divider_ok s = true -> divider_signed s = true -> derived_pos (l_kind s) a = false ->
+  writable (run_sets fixed_cfg l s) = true ->
+  (a = AName -> persist_get_guard AName (run_sets fixed_cfg l s) = true) ->
+  exists s', save_open (run_sets fixed_cfg l s) = AOk s' /\
+             get a s' = lastval (l_kind s) a l (get a s) /\ l_pixels s' = l_pixels s.
+Proof.
+  intros A a l s D S P W N.
+  assert (G : persist_get_guard a (run_sets fixed_cfg l s) = true).
+  { destruct a; try reflexivity.
+    - apply N; reflexivity.
+    - simpl. apply run_sets_divider_signed; [reflexivity|assumption]. }
+  destruct (persist_get save_open A a _ W G) as [s' [E1 E2]].
+  exists s'. split; [assumption|]. split.
+  - rewrite E2. apply history_fixed; assumption.
+  - rewrite A in E1 by assumption. inv E1. simpl. apply run_sets_pixels.
+Qed.
